@@ -126,7 +126,28 @@ def eigh_jvp(ctx):
            d is not None, show(core, maxdepth=3)[:100], fi)
     # F = reciprocal(...) - eye : the matrix handed to the tangent helper (second positional argument)
     helper_calls = [x for x in subterms(R) if x.op == "call" and (func_name(x) or "").endswith("_eigh_jvp_jitted_nob")]
-    F = call_parts(helper_calls[0])[1][1] if helper_calls and len(call_parts(helper_calls[0])[1]) >= 2 else None
+    h = p.func("linalg_utils._eigh_jvp_jitted_nob")
+    # which parameter of the tangent helper is F / the eigenvectors / the matrix tangent is read off the call: the
+    # argument built from the reciprocal, the one that is element 1 of the _eigh result, the remaining one
+    roles = {}
+    F = None
+    if helper_calls:
+        from ..model import bind_call
+        _, hpos_, hkws_ = call_parts(helper_calls[0])
+        okb_, _, mp_ = bind_call(h, len(hpos_), list(hkws_), False)
+        if okb_:
+            actual = {n_: (hpos_[m_[1]] if m_[0] == "pos" else hkws_[m_[1]]) for n_, m_ in mp_.items()}
+            for n_, a_ in actual.items():
+                a0 = strip_wrappers(a_)
+                if recs and any(x is recs[0] for x in subterms(a0)):
+                    roles["F"] = n_
+                    F = a_
+                elif a0.op == "getitem" and is_const(a0.args[1], 1) and a0.args[0].op == "call" and \
+                        (func_name(a0.args[0]) or "").endswith("_eigh"):
+                    roles["v"] = n_
+            rest = [n_ for n_ in actual if n_ not in roles.values()]
+            if len(rest) == 1:
+                roles["at"] = rest[0]
     okF = False
     if F is not None:
         m = m_binop(strip_wrappers(F), "-")
@@ -143,11 +164,16 @@ def eigh_jvp(ctx):
         ok_p = e0.op == "getitem" and e1.op == "getitem" and is_const(e0.args[1], 0) and is_const(e1.args[1], 1) and \
             e0.args[0] is e1.args[0] and e0.args[0].op == "call" and (func_name(e0.args[0]) or "").endswith("_eigh")
     ctx.ob("GUARD-1", "linalg_utils._eigh_jvp: primal output is _eigh(primals)", ok_p, "", fi)
-    h = p.func("linalg_utils._eigh_jvp_jitted_nob")
     ev2 = Evaluator(p)
     fr2 = ev2.eval_function(h)
     r2 = ev2.result(fr2)
-    hp = [sym(x.name) for x in h.params]
+    if set(roles) != {"F", "v", "at"}:
+        ctx.rep.note("linalg_utils._eigh_jvp: the (eigenvectors, F, tangent) arguments of the tangent helper were not "
+                     "identified at its call; the tangent-formula rule does not apply")
+        return
+    hp = [sym(roles["v"]), sym(roles["F"]), sym(roles["at"])]
+    if r2.op == "record" and len(r2.args) == 3:
+        r2 = mk("tuple", r2.args[1], r2.args[2])         # (dw, dv) travelling as a two-field record
 
     def dot_parts(t):
         t = strip_wrappers(t)
